@@ -243,6 +243,11 @@ def proof_gate(ctx, plugin):
         if not r["ok"]:
             gate["broken"].append(n)
         for a in r["axioms"]:
+            # kernel primitives (machine integers / binary64 floats and their operations) are printed by
+            # Print Assumptions next to the axioms; they are registered primitives of Coq's kernel, not axioms
+            # declared by anybody (the evidence lists them under the trusted base all the same)
+            if a.startswith("PrimFloat.") or a.startswith("PrimInt63."):
+                continue
             if a not in allow and a.split(".")[-1] not in {x.split(".")[-1] for x in allow}:
                 gate["bad_axioms"].append("%s depends on %s" % (n, a))
     if ctx.tier == "thorough" and ok and getattr(plugin, "COQCHK", True):
@@ -750,7 +755,8 @@ def write_evidence(ctx, plugin, gate, axioms, items, n_lem, n_lem_ok, n_viol, ex
                        % (plugin.COQ_DIR, len(plugin.THEOREMS), n_lem,
                           "; coqchk -o on Properties.vo: %s" % gate.get("coqchk_ok") if "coqchk_ok" in gate else ""),
         "trusted_base": ["Coq 8.16.1 kernel and its vm_compute machine (no native_compute, no extraction)"]
-                        + ["axiom: " + a for a in axioms] + list(getattr(plugin, "TRUSTED", [])),
+                        + [("kernel primitive (not an axiom): " if (a.startswith("PrimFloat.") or a.startswith("PrimInt63.")) else "axiom: ") + a
+                           for a in axioms] + list(getattr(plugin, "TRUSTED", [])),
         "theorems_checked": {n: ("closed under the global context" if (r["ok"] and not r["axioms"]) else
                                  ("axioms: " + ", ".join(r["axioms"]) if r["ok"] else "BROKEN"))
                              for n, r in gate["theorems"].items()},
